@@ -75,6 +75,7 @@ def grants2(pc, ff, g):
 
 FINDING_LITERAL = "C16-xthread-hit-predates-call"
 FINDING_STALE = "C16-xthread-stale-store"
+FINDING_OVERWRITE = "C16-owner-entry-overwritten"
 
 
 class Drift(Exception):
@@ -456,7 +457,12 @@ def corpus_cases():
     f4 = {"target": "front", "family": "corpus:front-hit",
           "progs": [[["acquire"], ["call", 0], ["exit"]], [["call", 0], ["call", 0]]],
           "schedule": with_versions(acqf + [A] * 6 + [B] * 4 + [A] * 7 + _tail(), 1)}
-    return [f1, f2, f3, f4]
+    # F5: B missed before A stored; B's later read overwrites A's entry in the same dict: A's second call in the SAME
+    #     block returns another value than its first (finding C16-owner-entry-overwritten; Lean replaceActs1/2)
+    f5 = {"target": "proc", "family": "corpus:owner-entry-overwritten",
+          "progs": [[["acquire"], ["call", 0], ["call", 0], ["exit"]], [["call", 0]]],
+          "schedule": with_versions(acq + [B] * 3 + [A] * 6 + [B] * 2 + [A] * 3 + _tail(), 3)}
+    return [f1, f2, f3, f4, f5]
 
 
 def enumerate_one_call_vs_block(target, funs=(0,)):
